@@ -22,7 +22,8 @@ RULE = ("all sequences of <=k operations from the write alphabet (assignment of 
 ASSUMPTIONS = ["retraction is outside the statement: relations of elements that left the field are not required to "
                "disappear; only presence of the consequences of CURRENT elements is checked",
                "entries may be stored as weak references (inferred ones); they are unwrapped before comparison"]
-BOUNDS = {"quick": {"seq_len": 2, "seq_len_core_ops": 3}, "thorough": {"seq_len": 3}}
+BOUNDS = {"quick": {"seq_len": 2, "seq_len_core_ops": 3, "inferred_prefix_len": 2},
+          "thorough": {"seq_len": 3, "inferred_prefix_len": 3}}
 CHUNK = 150
 RECYCLE_CHUNKS = 10
 BUDGET_S = {"quick": 900, "thorough": 6000}
@@ -57,6 +58,17 @@ CORE_LIST = [("assign", (1, 0)), ("assign", (0, 3)), ("assign_self",), ("iadd", 
 CORE_SET = [("assign", (1, 0)), ("assign_self",), ("ior", (2,)), ("add", 0), ("add", 2), ("update", (0, 1)),
             ("update_gen", (1, 2))]
 INIT = [(), (0,), (0, 1)]
+# "inferred" family: the initial contents are INFERRED into the field (asserted through the inverse property on the other
+# side); a prefix of operations - including ones that make an entry leave the container - is followed by one final write
+# of one element in every equivalent way of writing it; all ways must leave the same contents (differential oracle: the
+# statement's "infers alike", no reference value needed for what re-assignment does to inferred entries)
+INF_LIST_PREFIX = ([("setitem", 0, e) for e in E] + [("setitem", -1, 2), ("setslice", (0, 1), (1, 2)), ("setslice", (0, 0), (2,)),
+                   ("append", 1), ("insert", 0, 1), ("assign", (1,)), ("assign", (1, 0)), ("assign", ()), ("assign_self",),
+                   ("iadd", (1,)), ("pop",), ("remove_first",), ("del_first",), ("clear_method",)])
+INF_SET_PREFIX = [("add", 1), ("update", (0, 1)), ("assign", (1,)), ("assign", (1, 0)), ("assign", ()), ("assign_self",),
+                  ("ior", (1,)), ("discard_first",), ("remove_first",), ("clear_method",)]
+FINAL_LIST = ("append", "extend", "iadd", "iadd_alias", "assign_concat", "insert_end", "setslice_end")
+FINAL_SET = ("add", "update", "ior", "ior_alias", "assign_union")
 ADDITIVE = {"append", "extend", "extend_gen", "extend_tuple", "extend_self", "extend_itself", "insert", "insert_end", "iadd",
             "iadd_gen", "iadd_alias"}
 
@@ -81,6 +93,12 @@ def cases(tier, seed):
                     k = b["seq_len_core_ops"]
                     for seq in itertools.product(core, repeat=k):
                         out.append((field, init, how, seq))
+    for field, prefix_ops in (("list", INF_LIST_PREFIX), ("set", INF_SET_PREFIX)):
+        for init in INIT:
+            for k in range(0, b["inferred_prefix_len"] + 1):
+                for seq in itertools.product(prefix_ops, repeat=k):
+                    for e in (2, 0):
+                        out.append((field, init, "inferred", seq + (("final", e),)))
     return list(dict.fromkeys(out))
 
 
@@ -152,6 +170,13 @@ class World:
                 value = getattr(self.donor, self.fname)
                 self.other.append(self.donor)
             self.owner = (O.VPerson if field == "list" else O.VCompany)("owner", **{self.fname: value})
+        elif how == "inferred":
+            # asserted on the other side: the inverse property puts the values into the field under test
+            for v in vals:
+                if field == "list":
+                    v.members.add(self.owner)
+                else:
+                    v.member_of.append(self.owner)
         elif how == "assign":
             setattr(self.owner, self.fname, list(vals) if field == "list" else set(vals))
         else:
@@ -225,6 +250,20 @@ class World:
                 if not m:
                     return False
                 f()[op[1]] = U[op[2]]; m[op[1]] = U[op[2]]
+            elif k in ("pop", "remove_first", "del_first"):
+                if not len(f()):
+                    return False
+                if k == "pop":
+                    f().pop()
+                    if m: m.pop()
+                elif k == "remove_first":
+                    f().remove(unwrap(list(f())[0]))
+                    if m: m.pop(0)
+                else:
+                    del f()[0]
+                    if m: m.pop(0)
+            elif k == "clear_method":
+                f().clear(); m.clear()
             elif k == "setslice":
                 sl = slice(*op[1]); new = [U[i] for i in op[2]]
                 f()[sl] = list(new); m[sl] = new
@@ -266,6 +305,13 @@ class World:
                 f().update()
             elif k == "ior_alias":
                 alias = f(); alias |= set(vals); m |= set(vals)
+            elif k in ("discard_first", "remove_first"):
+                present = sorted((unwrap(v) for v in f()), key=lambda v: (v.name, id(v)))
+                if not present:
+                    return False
+                (f().discard if k == "discard_first" else f().remove)(present[0]); m.discard(present[0])
+            elif k == "clear_method":
+                f().clear(); m.clear()
             elif k == "assign_filter_self":
                 setattr(o, n, (v for v in getattr(o, n)))
             elif k == "assign_chain_self":
@@ -307,8 +353,75 @@ def expected_closure(world):
     return facts
 
 
+def final_write(w, style, e):
+    """one element written to the field in one of the equivalent ways"""
+    o, n, v = w.owner, w.fname, w.univ[e]
+    f = w.get
+    if style == "append":
+        f().append(v)
+    elif style == "extend":
+        f().extend([v])
+    elif style == "iadd":
+        x = getattr(o, n); x += [v]; setattr(o, n, x)
+    elif style == "iadd_alias":
+        alias = f(); alias += [v]
+    elif style == "assign_concat":
+        setattr(o, n, [unwrap(i) for i in f()] + [v])
+    elif style == "insert_end":
+        f().insert(len(f()), v)
+    elif style == "setslice_end":
+        k = len(f()); f()[k:k] = [v]
+    elif style == "add":
+        f().add(v)
+    elif style == "update":
+        f().update([v])
+    elif style == "ior":
+        x = getattr(o, n); x |= {v}; setattr(o, n, x)
+    elif style == "ior_alias":
+        alias = f(); alias |= {v}
+    elif style == "assign_union":
+        setattr(o, n, {unwrap(i) for i in f()} | {v})
+    else:
+        raise ValueError(style)
+
+
+def run_inferred_case(case):
+    field, init, how, seq = case
+    res = CaseResult()
+    prefix, e = seq[:-1], seq[-1][1]
+    outcomes = {}
+    for style in (FINAL_LIST if field == "list" else FINAL_SET):
+        try:
+            w = World(field, init, how)
+            applied = [op for op in prefix if w.apply(op)]
+            before = w.contents()
+            final_write(w, style, e)
+        except Exception as ex:
+            res.failures.append(Failure("crash", f"{field} field with inferred contents {init}: {prefix} then {style}({e}): "
+                                                 f"{type(ex).__name__}: {ex}"))
+            return res
+        got = w.contents()
+        res.transitions += len(applied) + 1
+        key = tuple(repr(x) + ("'" if x is w.univ[3] else "") for x in got)
+        outcomes[style] = key if field == "list" else tuple(sorted(key))
+        states_before = tuple(repr(x) for x in before)
+    distinct = set(outcomes.values())
+    res.states = [states_before] + sorted(distinct)
+    res.outcome_key = tuple(sorted(distinct))
+    res.nontrivial_key = case
+    res.features = [f"inferred:{field}:{op[0]}" for op in prefix] + [f"init:inferred:{len(init)}"]
+    if len(distinct) > 1:
+        res.failures.append(Failure(
+            "ways-of-writing-disagree",
+            f"{field} field whose contents {init} were inferred through the inverse property, after {prefix}: writing element "
+            f"{e} leaves different contents depending on how it is written: {outcomes}", case=case))
+    return res
+
+
 def run_case(case):
     field, init, how, seq = case
+    if how == "inferred":
+        return run_inferred_case(case)
     res = CaseResult()
     try:
         w = World(field, init, how)
@@ -377,7 +490,7 @@ def run_case(case):
 
 def finish(run):
     if run.exhaustive and not run.failures:
-        for k in ("list:setitem", "list:setslice", "list:setslice_gen", "list:setslice_self", "list:extend_gen", "set:update_gen", "set:ior", "list:iadd", "list:assign_self"):
+        for k in ("inferred:list:setitem", "inferred:list:pop", "inferred:set:discard_first", "list:setitem", "list:setslice", "list:setslice_gen", "list:setslice_self", "list:extend_gen", "set:update_gen", "set:ior", "list:iadd", "list:assign_self"):
             if not run.features.get(k):
                 raise HarnessError(f"vacuous: {k} never exercised")
 
